@@ -106,7 +106,8 @@ pub fn run_sii_dev(case: &SiiDevCase, property: &str, info: &mut CaseInfo) -> Re
     spec.devices[0].sii.cfg = case.header;
 
     let net: NetHandle = Rc::new(RefCell::new(Network::new(&spec)));
-    let cfg = SimConfig::default();
+    // a handful of EEPROM accesses: far below this budget unless a busy wait never ends
+    let cfg = SimConfig { frame_budget: 200_000, ..Default::default() };
     let c = case.clone();
     let net2 = net.clone();
 
@@ -151,6 +152,7 @@ pub fn run_sii_dev(case: &SiiDevCase, property: &str, info: &mut CaseInfo) -> Re
 
                             n.devices[0].sii_write_naks = *naks;
                             n.devices[0].stats.sii_writes.clear();
+                            n.devices[0].stats.sii_write_cmds.clear();
                         }
 
                         let res = {
@@ -188,7 +190,10 @@ pub fn run_sii_dev(case: &SiiDevCase, property: &str, info: &mut CaseInfo) -> Re
             Ok(outs)
         })
     })
-    .map_err(|e| sim_fail(property, e))?;
+    .map_err(|e| match e {
+        simexec::SimError::Watchdog => Fail::new(format!("{property}|device-access-does-not-end"), format!("the EEPROM operations {:?} had not ended after {} frames", case.ops, cfg.frame_budget)),
+        e => sim_fail(property, e),
+    })?;
 
     let outs = match res {
         Ok(o) => o,
